@@ -113,7 +113,7 @@ CHECKS = {
     },
     "C16": {
         "text": "Provision.tla models every actor message of update/reset/timeup/query and the file steps of write_provision_state; TLC checks FinishedOnlyAfter, Answer, ErrorTextExact, QueryTruth, TagAtomic exhaustively; TLC-generated schedules (including every counterexample class found on the original design) are replayed on the real code through the H5 schedule gates and the real HTTP /provision endpoint, and random gated runs plus strace-delayed file races are validated by TLC against the property-level trace spec.",
-        "note": "Schedules are forced with cfg-guarded gates at the entry of the provision actor's client calls; file-step interleavings rely on strace delay injection; no gate between get_state and the channel-state read. status.tag is looked at after every step by a reader that keeps the previously seen file open: same inode with different content, or a change readable through the old descriptor, is an in-place modification (TagInPlace).",
+        "note": "Schedules are forced with cfg-guarded gates at the entry of the provision actor's client calls; file-step interleavings rely on strace delay injection; no gate between get_state and the channel-state read. status.tag is looked at after every step by a reader that keeps the previously seen file open: same inode with different content, or a change readable through the old descriptor, is an in-place modification (TagInPlace); a status.tag that was seen once and is missing at a later look (also while the publisher is parked at a gate) is a non-atomic replacement (TagVanished). Directed sequential histories (deadline with two subsystems missing, query, one reports, query, ...) compare every error text with what had been reported at that moment without holding any query at a gate; a schedule on which a task neither parks nor returns within 2.5 s is abandoned and counted (stuck_runs), a tool error only if nothing could be replayed.",
         "technique": "TLA+ spec + TLC model checking; deterministic schedule replay through gates; impl->spec trace validation",
         "design_ref": "DESIGN.md §3 Provision.tla",
     },
